@@ -22,7 +22,7 @@ LEVEL = 'exploration'
 RULE = ('case = (1-5 initial voters of 8 possible, configuration, step list <=220 with addnode/remnode ops through API or admin path). '
         'non-trivial = >=2 membership changes were requested while an earlier one was uncommitted, or a leader was elected while a membership change was uncommitted; distinct = distinct case digests')
 ASSUMPTIONS = ['operator discipline: removed node shut down when the removal commits; added node starts empty with the current member list',
-               'no node loses its memory']
+               'no node loses its memory; in particular the address of a removed node is reused by a fresh process only after every running node has dropped it from its member set']
 
 EXTRA = [('addnode', 7), ('remnode', 6)]
 OWN = {'C10': None, 'C01': None, 'C03': None, 'C04': {'commit-index-decreased', 'committed-entry-differs', 'commit-without-majority', 'applied-index-decreased', 'log-matching-broken'}}
@@ -98,11 +98,22 @@ class DynSim(cluster.Sim):
             return False
         req = self.pick(live, a)
         members = self.view_members(req)
-        spare = [n for n in self.names_all if n not in self.nodes and n not in members]
+        # an address whose process was removed may be given to a fresh, empty process only once no running node still
+        # counts the old incarnation as a voter: otherwise a voter of that node's (stale) configuration has lost its
+        # memory, which no Raft tolerates (see ASSUMPTIONS)
+        stale = set()
+        for n in live:
+            stale |= self.view_members(n)
+        spare = [n for n in self.names_all if n not in self.nodes and n not in members and n not in stale]
         if not spare or len(members) >= 5:
             return False
         new = self.pick(spare, b)
-        others = [self.addr[m] for m in sorted(members)]
+        # operator discipline: the new process is given the current (= committed) member list, not the requester's
+        # speculative view (which may contain an uncommitted change that is truncated later)
+        init = set('n%d' % i for i in range(self.cfg['n']))
+        cmds = [m for m in (membership_of(self.G[p][0]) for p in sorted(self.G)) if m is not None]
+        committed = fold_members(self, init, cmds, None)
+        others = [self.addr[m] for m in sorted(committed) if m != new]
         self.start_node(new, others)
         return self._request(req, 'add', new, c)
 
